@@ -257,15 +257,17 @@ def from_skeleton(inclusive, step, coll, names):
                 bad.append("the start value is combined with the promotion constant by %r, expected `+`" % lit(w[2]))
             w = [w[0]] + list(w[3:])
             PROMOTED.append(1)
-        if coll and len(w) > 10 and is_code(0, "val_start") and ins_at(w, 1, "store_fast") and is_code(2, "val_end") and ins_at(w, 3, "store_fast") \
+        if len(w) > 10 and is_code(0, "val_start") and ins_at(w, 1, "store_fast") and is_code(2, "val_end") and ins_at(w, 3, "store_fast") \
                 and ins_at(w, 4, "load_fast") and (ins_at(w, 5, "store") or ins_at(w, 5, "store_fast")):
             if reg(w[4]) != reg(w[1]):
                 bad.append("the counter is not initialised from the register the start value was parked in")
             c, e = reg(w[5]), reg(w[3])
             t0 = 6
         elif len(w) > 8 and is_code(0, "val_start") and (ins_at(w, 1, "store_fast") or ins_at(w, 1, "store")) and is_code(2, "val_end") and ins_at(w, 3, "store_fast"):
-            if coll:
-                bad.append("the counter (an existing variable) is written before the end bound is evaluated: `n = 5; from 0 to n, n {..}` runs zero times")
+            # (a new counter too: inside a function, `from 0 to n, n` with an outer `n` reads the outer variable in the bound - the type checker binds it
+            # there, the counter does not exist yet - and `store_fast n` before the bound makes `load n` find the counter, 0)
+            bad.append("the counter is written before the end bound is evaluated: `n = 5; from 0 to n, n {..}` (and, for a new counter, `const n = 3` outside and "
+                       "`from 0 to n, n {..}` in a function) runs zero times")
             c, e = reg(w[1]), reg(w[3])
             t0 = 4
         else:
